@@ -1,10 +1,12 @@
 // Driver for C19 (configuration survives dump and reload) and C20 (admin dump never leaks TLS keys).
 // Modes:
-//   graph      reflect the configuration type graph of the tree under verification (JSON on -out)
-//   rt         replay TLC-enumerated abstract configurations through real MOSN lives, record a trace
-//   samples    the same cycle for every shipped sample configuration
-//   scenarios  hand-written configurations for the shapes the type-directed enumeration keeps fixed
-//   redact     C20: TLS contexts with marker keys at every position, runtime-update histories, admin endpoints
+//
+//	graph      reflect the configuration type graph of the tree under verification (JSON on -out)
+//	rt         replay TLC-enumerated abstract configurations through real MOSN lives, record a trace
+//	samples    the same cycle for every shipped sample configuration
+//	scenarios  hand-written configurations for the shapes the type-directed enumeration keeps fixed
+//	redact     C20: TLS contexts with marker keys at every position, runtime-update histories, admin endpoints
+//
 // Verdicts are never taken here: the trace is validated by TLC against spec/config/ConfigDump*Trace.
 package main
 
@@ -29,14 +31,14 @@ import (
 	_ "mosn.io/mosn/pkg/filter/stream/gzip"
 	_ "mosn.io/mosn/pkg/filter/stream/mirror"
 	_ "mosn.io/mosn/pkg/filter/stream/payloadlimit"
+	"mosn.io/mosn/pkg/log"
 	_ "mosn.io/mosn/pkg/network"
 	_ "mosn.io/mosn/pkg/protocol"
-	_ "mosn.io/mosn/pkg/protocol/xprotocol"
-	_ "mosn.io/mosn/pkg/router"
-	"mosn.io/mosn/pkg/log"
 	_ "mosn.io/mosn/pkg/protocol/http"
 	_ "mosn.io/mosn/pkg/protocol/http2"
+	_ "mosn.io/mosn/pkg/protocol/xprotocol"
 	_ "mosn.io/mosn/pkg/protocol/xprotocol/bolt"
+	_ "mosn.io/mosn/pkg/router"
 	_ "mosn.io/mosn/pkg/stream/http"
 	_ "mosn.io/mosn/pkg/stream/http2"
 	_ "mosn.io/mosn/pkg/stream/xprotocol"
@@ -45,14 +47,14 @@ import (
 )
 
 var (
-	mode     = flag.String("mode", "rt", "graph|rt|samples|scenarios|redact")
-	outPath  = flag.String("out", "", "output file (graph)")
-	cases    = flag.String("cases", "", "JSON-lines cases")
-	tracePth = flag.String("trace", "", "NDJSON trace (appended)")
-	progress = flag.String("progress", "", "file receiving the index of the case being executed")
-	start    = flag.Int("start", 0, "first case index to execute")
-	work     = flag.String("work", "", "scratch directory")
-	repo     = flag.String("repo", "", "tree with configs/ and examples/")
+	mode      = flag.String("mode", "rt", "graph|rt|samples|scenarios|redact")
+	outPath   = flag.String("out", "", "output file (graph)")
+	cases     = flag.String("cases", "", "JSON-lines cases")
+	tracePth  = flag.String("trace", "", "NDJSON trace (appended)")
+	progress  = flag.String("progress", "", "file receiving the index of the case being executed")
+	start     = flag.Int("start", 0, "first case index to execute")
+	work      = flag.String("work", "", "scratch directory")
+	repo      = flag.String("repo", "", "tree with configs/ and examples/")
 	extrasPth = flag.String("extras", "", "redact: JSON object name -> json path of further typed TLS positions")
 	yamlEvery = flag.Int("yaml-every", 5, "every n-th case is written as YAML")
 )
